@@ -779,11 +779,34 @@ void exec_op(world& w, const json& op)
                     auto oc = vh::guarded(what.c_str(), [&] { v = fn(); });
                     p[what] = json({{"ok", oc.ok}, {"ex", oc.ex}, {"std", oc.ok || oc.std_exc}});
                 };
+                // a sub-crate of ours, so that a foreign crate can carry the id of one of c's descendants
+                int64_t child_id = 0;
+                g("own_child", [&] { child_id = c.create_sub_crate("pfchild").id(); return json(child_id); });
                 int k = 0;
                 for (auto sch : {dj::engine::engine_schema::schema_1_18_0_os, dj::engine::engine_schema::schema_2_21_2})
                 {
                     std::string tag = k++ == 0 ? "v1_" : "v2_";
                     auto other = dj::engine::create_temporary_database(sch);
+                    // a ROOT crate of the other library whose id is that of c's own child here: moving c under "it" would
+                    // close a cycle in this library although the handle has no ancestors at all where it comes from
+                    if (child_id > 0)
+                    {
+                        std::optional<dj::crate> twin;
+                        for (int n = 0; n < 64 && !twin; ++n)
+                        {
+                            auto x = other.create_root_crate("twin" + std::to_string(n));
+                            if (x.id() == child_id)
+                                twin = x;
+                            else if (x.id() > child_id)
+                                break;
+                        }
+                        if (twin)
+                        {
+                            g(tag + "set_parent_twin_of_descendant", [&] { c.set_parent(*twin); return json(0); });
+                            g(tag + "descendants_after", [&] { return ids_of(c.descendants()); });
+                            g(tag + "crates_after", [&] { return ids_of(w.db->crates()); });
+                        }
+                    }
                     auto fr = other.create_root_crate("f");
                     auto fs2 = fr.create_sub_crate("g");
                     dj::track_snapshot sn;
